@@ -72,31 +72,48 @@ def keepChar (c : Char) : Bool := !isWs c && !isDelimChar c
 /-- The kept characters of a string. -/
 def keepOf (s : String) : String := String.ofList (s.toList.filter keepChar)
 
-/-- The characters a text with tag `t` contributes to stream `c` (`c = false`: code tokens — kept
-characters of everything that is not a comment; `c = true`: comments — all non-blank characters of
-comment atoms). -/
-def charsOf (c : Bool) (t : Tag) (s : String) : List Char :=
-  if c then (if t = .comment then s.toList.filter (fun x => !isWs x) else [])
-  else (if t = .comment then [] else s.toList.filter keepChar)
+/-- The four streams a document carries by construction. -/
+inductive Stream where
+  | tok    -- code tokens: kept characters of everything that is not a comment
+  | cmt    -- comments: all non-blank characters of comment atoms
+  | prose  -- markup text: every character of prose atoms (C08)
+  | lit    -- literals: every character of literal atoms (strings, raw text, numbers, labels, …; C10)
+  | verb   -- verbatim regions: every character of the atoms copied for `@typstyle off` nodes (C07)
+deriving DecidableEq, Repr
 
-def atomChars (c : Bool) : Atom → List Char
+/-- The characters a text with tag `t` contributes to stream `c`. -/
+def charsOf (c : Stream) (t : Tag) (s : String) : List Char :=
+  match c with
+  | .tok => if t = .comment then [] else s.toList.filter keepChar
+  | .cmt => if t = .comment then s.toList.filter (fun x => !isWs x) else []
+  | .prose => if t = .prose ∨ t = .plit then s.toList else []
+  | .lit => if t = .lit ∨ t = .plit then s.toList else []
+  | .verb => if t = .verbatim then s.toList else []
+
+def atomChars (c : Stream) : Atom → List Char
   | .txt s t => charsOf c t s
   | .nl _ => []
 
 /-- Text of stream `c` in a layout, in order. -/
-def streamText (c : Bool) (xs : List Atom) : List Char := xs.flatMap (atomChars c)
+def streamText (c : Stream) (xs : List Atom) : List Char := xs.flatMap (atomChars c)
 
 /-- Token text of a layout: the kept characters of every atom that is not a comment, in order. -/
-abbrev tokText (xs : List Atom) : List Char := streamText false xs
+abbrev tokText (xs : List Atom) : List Char := streamText .tok xs
 /-- Comment text of a layout: the non-blank characters of the comment atoms, in order. -/
-abbrev cmtText (xs : List Atom) : List Char := streamText true xs
+abbrev cmtText (xs : List Atom) : List Char := streamText .cmt xs
+/-- Prose text of a layout: all characters of the markup-text atoms, in order. -/
+abbrev proseText (xs : List Atom) : List Char := streamText .prose xs
+/-- Literal text of a layout: all characters of the literal atoms, in order. -/
+abbrev litText (xs : List Atom) : List Char := streamText .lit xs
+/-- Verbatim text of a layout: all characters of the atoms copied for `@typstyle off` nodes, in order. -/
+abbrev verbText (xs : List Atom) : List Char := streamText .verb xs
 
-theorem streamText_append (c : Bool) (xs ys : List Atom) : streamText c (xs ++ ys) = streamText c xs ++ streamText c ys := by
+theorem streamText_append (c : Stream) (xs ys : List Atom) : streamText c (xs ++ ys) = streamText c xs ++ streamText c ys := by
   simp [streamText]
 
 /-- Every layout of `d`, in either mode, has text `s` in stream `c`. -/
-def EmitsS (c : Bool) (d : Doc) (s : List Char) : Prop := ∀ m xs, Lay m d xs → streamText c xs = s
-abbrev EmitsT (d : Doc) (s : List Char) : Prop := EmitsS false d s
+def EmitsS (c : Stream) (d : Doc) (s : List Char) : Prop := ∀ m xs, Lay m d xs → streamText c xs = s
+abbrev EmitsT (d : Doc) (s : List Char) : Prop := EmitsS .tok d s
 
 theorem lay_app' {m a b xs} (h : Lay m (a ++ b) xs) : ∃ xa xb, xs = xa ++ xb ∧ Lay m a xa ∧ Lay m b xb := by
   change Lay m (Doc.app a b) xs at h
@@ -143,7 +160,7 @@ theorem EmitsS.falt {c b f s} (hb : EmitsS c b s) (hf : EmitsS c f s) : EmitsS c
   | flatAltB h' => exact hb _ _ h'
   | flatAltF h' => exact hf _ _ h'
 
-theorem EmitsS.mkText (c : Bool) (wd : String → Nat) (t : Tag) (s : String) :
+theorem EmitsS.mkText (c : Stream) (wd : String → Nat) (t : Tag) (s : String) :
     EmitsS c (mkText wd t s) (charsOf c t s) := by
   intro m xs h
   unfold Pretty.mkText at h
@@ -178,59 +195,86 @@ def Doc.allChars : Doc → List Char
   | _ => []
 
 theorem commentOnly_emits {m : Mode} {d : Doc} {xs : List Atom} (hl : Lay m d xs) :
-    d.commentOnly = true → streamText false xs = [] ∧ streamText true xs = d.allChars := by
+    d.commentOnly = true → ∀ c, streamText c xs = (if c = .cmt then d.allChars else []) := by
   induction hl with
-  | nil => intro _; exact ⟨rfl, rfl⟩
+  | nil => intro _ c; cases c <;> rfl
   | text =>
-    intro h; simp only [Doc.commentOnly, beq_iff_eq] at h
-    simp [streamText, atomChars, charsOf, h, Doc.allChars]
-  | hardline => intro _; exact ⟨rfl, rfl⟩
+    intro h c; simp only [Doc.commentOnly, beq_iff_eq] at h
+    cases c <;> simp [streamText, atomChars, charsOf, h, Doc.allChars]
+  | hardline => intro _ c; cases c <;> rfl
   | append _ _ iha ihb =>
-    intro h; simp only [Doc.commentOnly, Bool.and_eq_true] at h
-    rw [streamText_append, streamText_append, (iha h.1).1, (ihb h.2).1, (iha h.1).2, (ihb h.2).2]
-    exact ⟨rfl, rfl⟩
-  | groupSame _ ih => intro h; exact ih (by simpa [Doc.commentOnly] using h)
-  | groupFlat _ ih => intro h; exact ih (by simpa [Doc.commentOnly] using h)
+    intro h c; simp only [Doc.commentOnly, Bool.and_eq_true] at h
+    rw [streamText_append, iha h.1 c, ihb h.2 c]
+    cases c <;> simp [Doc.allChars]
+  | groupSame _ ih => intro h c; simpa [Doc.allChars] using ih (by simpa [Doc.commentOnly] using h) c
+  | groupFlat _ ih => intro h c; simpa [Doc.allChars] using ih (by simpa [Doc.commentOnly] using h) c
   | flatAltB _ _ => intro h; simp [Doc.commentOnly] at h
   | flatAltF _ _ => intro h; simp [Doc.commentOnly] at h
-  | nest _ ih => intro h; exact ih (by simpa [Doc.commentOnly] using h)
-  | align _ ih => intro h; exact ih (by simpa [Doc.commentOnly] using h)
+  | nest _ ih => intro h c; simpa [Doc.allChars] using ih (by simpa [Doc.commentOnly] using h) c
+  | align _ ih => intro h c; simpa [Doc.allChars] using ih (by simpa [Doc.commentOnly] using h) c
 
 end Pretty
 
 namespace Twin
-open Pretty (scale EmitsS keepOf charsOf)
+open Pretty (scale EmitsS keepOf charsOf Stream)
 
-/-- The family of documents, one per indent unit, related by `scale`; together with the token text
-`toks` and the comment text `cmts` that every layout of every member carries (when `good`: the dynamic
-side conditions — both alternatives of a `flat_alt` carry the same streams, a comment document holds
-only comment text — held). -/
+/-- The four stream texts of a document. -/
+structure Streams where
+  tok : String := ""
+  cmt : String := ""
+  prose : String := ""
+  lit : String := ""
+  verb : String := ""
+deriving DecidableEq, Repr
+
+def Streams.get (s : Streams) : Stream → String
+  | .tok => s.tok
+  | .cmt => s.cmt
+  | .prose => s.prose
+  | .lit => s.lit
+  | .verb => s.verb
+
+def Streams.app (a b : Streams) : Streams :=
+  ⟨a.tok ++ b.tok, a.cmt ++ b.cmt, a.prose ++ b.prose, a.lit ++ b.lit, a.verb ++ b.verb⟩
+
+theorem Streams.get_app (a b : Streams) (c : Stream) : (a.app b).get c = a.get c ++ b.get c := by
+  cases c <;> rfl
+
+/-- The family of documents, one per indent unit, related by `scale`; together with the texts of
+the four streams (`ss`) that every layout of every member carries (when `good`: the dynamic side
+conditions — both alternatives of a `flat_alt` carry the same streams, a comment document holds only
+comment text — held). -/
 structure Doc where
   fam : Nat → Pretty.Doc
   rel : ∀ u, 0 < u → fam u = scale u (fam 1)
-  toks : String
-  cmts : String
+  ss : Streams
   good : Bool
-  emits : good = true → ∀ u, EmitsS false (fam u) toks.toList ∧ EmitsS true (fam u) cmts.toList
+  emits : good = true → ∀ u c, EmitsS c (fam u) (ss.get c).toList
 
-/-- A comment (plain closed document): it contributes no tokens, and its non-blank characters to the comment stream. -/
+def Doc.toks (d : Doc) : String := d.ss.tok
+def Doc.cmts (d : Doc) : String := d.ss.cmt
+def Doc.prose (d : Doc) : String := d.ss.prose
+def Doc.lits (d : Doc) : String := d.ss.lit
+def Doc.verbs (d : Doc) : String := d.ss.verb
+
+/-- A comment (plain closed document): its non-blank characters go to the comment stream, nothing to the others. -/
 def Doc.ofClosed (d : Pretty.Doc) (h : d.closed = true) : Doc :=
   { fam := fun _ => d
     rel := fun u _ => (Pretty.scale_closed u d h).symm
-    toks := ""
-    cmts := String.ofList d.allChars
+    ss := { cmt := String.ofList d.allChars }
     good := d.commentOnly
-    emits := fun hg _ =>
-      ⟨fun m xs hl => by simpa using (Pretty.commentOnly_emits hl hg).1,
-       fun m xs hl => by simpa using (Pretty.commentOnly_emits hl hg).2⟩ }
+    emits := fun hg _ c m xs hl => by
+      rw [Pretty.commentOnly_emits hl hg c]
+      cases c <;> simp [Streams.get] }
 
 def mkText (wd : String → Nat) (tag : Pretty.Tag) (s : String) : Doc :=
   { fam := fun _ => Pretty.mkText wd tag s
     rel := fun u _ => (Pretty.scale_closed u _ (Pretty.mkText_closed wd tag s)).symm
-    toks := String.ofList (charsOf false tag s)
-    cmts := String.ofList (charsOf true tag s)
+    ss := ⟨String.ofList (charsOf .tok tag s), String.ofList (charsOf .cmt tag s),
+           String.ofList (charsOf .prose tag s), String.ofList (charsOf .lit tag s),
+           String.ofList (charsOf .verb tag s)⟩
     good := true
-    emits := fun _ _ => ⟨by simpa using Pretty.EmitsS.mkText false wd tag s, by simpa using Pretty.EmitsS.mkText true wd tag s⟩ }
+    emits := fun _ _ c => by cases c <;> simpa [Streams.get] using Pretty.EmitsS.mkText _ wd tag s }
 
 def Doc.nil : Doc := mkText (fun _ => 0) .soft ""
 instance : Inhabited Doc := ⟨Doc.nil⟩
@@ -238,19 +282,17 @@ instance : Inhabited Doc := ⟨Doc.nil⟩
 def Doc.app (a b : Doc) : Doc :=
   { fam := fun u => a.fam u ++ b.fam u
     rel := fun u hu => by rw [a.rel u hu, b.rel u hu, Pretty.scale_app]
-    toks := a.toks ++ b.toks
-    cmts := a.cmts ++ b.cmts
+    ss := a.ss.app b.ss
     good := a.good && b.good
-    emits := fun hg u => by
+    emits := fun hg u c => by
       simp only [Bool.and_eq_true] at hg
-      exact ⟨by simpa using Pretty.EmitsS.app (a.emits hg.1 u).1 (b.emits hg.2 u).1,
-             by simpa using Pretty.EmitsS.app (a.emits hg.1 u).2 (b.emits hg.2 u).2⟩ }
+      simpa [Streams.get_app] using Pretty.EmitsS.app (a.emits hg.1 u c) (b.emits hg.2 u c) }
 instance : Append Doc := ⟨Doc.app⟩
 
 def Doc.grp (d : Doc) : Doc :=
   { d with fam := fun u => (d.fam u).grp
            rel := fun u hu => by rw [d.rel u hu, Pretty.scale_grp]
-           emits := fun hg u => ⟨Pretty.EmitsS.grp (d.emits hg u).1, Pretty.EmitsS.grp (d.emits hg u).2⟩ }
+           emits := fun hg u c => Pretty.EmitsS.grp (d.emits hg u c) }
 
 /-- `nest(config.tab_spaces)`: the only way the printer indents. -/
 def Doc.nstTab (d : Doc) : Doc :=
@@ -258,32 +300,28 @@ def Doc.nstTab (d : Doc) : Doc :=
            rel := fun u hu => by
              show (d.fam u).nst u = scale u ((d.fam 1).nst 1)
              rw [Pretty.scale_nst u hu, d.rel u hu, Nat.one_mul]
-           emits := fun hg u => ⟨Pretty.EmitsS.nst (d.emits hg u).1, Pretty.EmitsS.nst (d.emits hg u).2⟩ }
+           emits := fun hg u c => Pretty.EmitsS.nst (d.emits hg u c) }
 
-/-- `flat_alt`: both alternatives must carry the same tokens and comments (checked, recorded in `good`). -/
+/-- `flat_alt`: both alternatives must carry the same streams (checked, recorded in `good`). -/
 def Doc.falt (b f : Doc) : Doc :=
   { fam := fun u => Pretty.Doc.falt (b.fam u) (f.fam u)
     rel := fun u hu => by rw [b.rel u hu, f.rel u hu, Pretty.scale_falt]
-    toks := b.toks
-    cmts := b.cmts
-    good := b.good && f.good && b.toks == f.toks && b.cmts == f.cmts
-    emits := fun hg u => by
+    ss := b.ss
+    good := b.good && f.good && b.ss == f.ss
+    emits := fun hg u c => by
       simp only [Bool.and_eq_true, beq_iff_eq] at hg
-      obtain ⟨⟨⟨hb, hf⟩, ht⟩, hc⟩ := hg
-      have hf1 := (f.emits hf u).1
-      have hf2 := (f.emits hf u).2
+      obtain ⟨⟨hb, hf⟩, ht⟩ := hg
+      have hf1 := f.emits hf u c
       rw [← ht] at hf1
-      rw [← hc] at hf2
-      exact ⟨Pretty.EmitsS.falt (b.emits hb u).1 hf1, Pretty.EmitsS.falt (b.emits hb u).2 hf2⟩ }
+      exact Pretty.EmitsS.falt (b.emits hb u c) hf1 }
 
 def space : Doc := mkText (fun _ => 0) .soft " "
 def hardline : Doc :=
   { fam := fun _ => Pretty.hardline
     rel := fun _ _ => rfl
-    toks := ""
-    cmts := ""
+    ss := {}
     good := true
-    emits := fun _ _ => ⟨fun m xs hl => by cases hl; rfl, fun m xs hl => by cases hl; rfl⟩ }
+    emits := fun _ _ c m xs hl => by cases hl; cases c <;> rfl }
 def line : Doc := Doc.falt hardline space
 def line_ : Doc := Doc.falt hardline .nil
 
